@@ -565,11 +565,8 @@ class _GenerateRenderMethod:
                             "%s = _import_ns.get(%r, UNDEFINED)"
                             % (ident, ident),
                             "if %s is UNDEFINED:" % ident,
-                            "try:",
-                            "%s = context[%r]" % (ident, ident),
-                            "except KeyError:",
-                            "raise NameError(\"'%s' is not defined\")" % ident,
-                            None,
+                            "%s = runtime._lookup_strict(context, %r)"
+                            % (ident, ident),
                             None,
                         )
                     else:
@@ -580,12 +577,9 @@ class _GenerateRenderMethod:
                         )
                 else:
                     if self.compiler.strict_undefined:
-                        self.printer.writelines(
-                            "try:",
-                            "%s = context[%r]" % (ident, ident),
-                            "except KeyError:",
-                            "raise NameError(\"'%s' is not defined\")" % ident,
-                            None,
+                        self.printer.writeline(
+                            "%s = runtime._lookup_strict(context, %r)"
+                            % (ident, ident)
                         )
                     else:
                         self.printer.writeline(
